@@ -443,6 +443,13 @@ def gen_case(rng, prop):
     pk = {}
     if kind == 'partial':
         case['partial'], fixed, pk = gen_partial(rng, spec, [1, 'a', None, (1, 2)])
+    if prop == 'C09':
+        if rng.random() < 0.2:
+            case['tol'] = rng.choice([0, 1, 2]); case['deep'] = rng.random() < 0.3
+        if rng.random() < 0.2 and kind != 'method':
+            ign = [i for i in gen_ignore(rng, spec, kind) if not isinstance(i, int)]
+            if ign:
+                case['ignore'] = ign
     if prop == 'C11':
         case['ignore'] = gen_ignore(rng, spec, kind)
         if rng.random() < 0.25:
@@ -505,6 +512,8 @@ def run_case(case, prop):
     kk = gen.key_kind(case['keymap'])
     if kk not in ('raw', 'int') and prop in ('C09', 'C10'):
         pool += UNHASHABLE
+    if prop == 'C09' and case.get('tol') is not None:
+        pool += [2.04, 1.52, 0.12345, 1.005, 2.675]
     try:
         f = tgt.decorate(make_deco(case))
         kg = make_keygen(case)(tgt.plain)
@@ -609,6 +618,24 @@ def nonflat_order_mech(tgt, case, c1, c2):
     return []
 
 
+def unrounded_default_mech(tgt, case, c1, c2):
+    """witness-derived: a tolerance is set, and one call leaves a parameter to its float default d with
+    round(d, tol) != d while the other spells that same default out - klepto rounds the values the
+    caller passes but not the defaults it fills in"""
+    tol = case.get('tol')
+    if tol is None:
+        return []
+    for n, d in tgt.defaults.items():
+        if isinstance(d, float) and round(d, tol) != d:
+            in1, in2 = n in c1[1], n in c2[1]
+            names = spec_names(case['spec'])
+            pos1 = n in names and names.index(n) < len(c1[0]) + (len(tgt.pa) if tgt.kind == 'partial' else 0)
+            pos2 = n in names and names.index(n) < len(c2[0]) + (len(tgt.pa) if tgt.kind == 'partial' else 0)
+            if (in1 or pos1) != (in2 or pos2):
+                return ['tol-rounds-passed-values-not-defaults']
+    return []
+
+
 def judge_equiv(J, tgt, f, kg, rng, spec, asg, fixed):
     c1 = spell(rng, spec, asg, tgt.defaults, fixed)
     c2 = spell(rng, spec, asg, tgt.defaults, fixed)
@@ -638,10 +665,11 @@ def check_equiv(J, tgt, f, kg, c1, c2):
             J.bad('C09', 'equivalent-calls-different-keys',
                   '%s: calls %s and %s bind identically but get keys %s and %s'
                   % (which, srepr(c1), srepr(c2), srepr(x)[:150], srepr(y)[:150]),
-                  mech=nonflat_order_mech(tgt, case, c1, c2), pair=[enc(list(c1)), enc(list(c2))])
+                  mech=nonflat_order_mech(tgt, case, c1, c2) + unrounded_default_mech(tgt, case, c1, c2),
+                  pair=[enc(list(c1)), enc(list(c2))])
             return
     try:
-        n, r = behaviour(J, tgt, case, c1, c2)
+        n, r = behaviour(J, tgt, case, c1, c2, own_deco=True)
     except TypeError:
         J.note('c09_behaviour_skipped_unhashable')
         return
@@ -649,7 +677,7 @@ def check_equiv(J, tgt, f, kg, c1, c2):
     if n != 0:
         J.bad('C09', 'equivalent-call-recomputed',
               'after %s the identically-binding call %s was evaluated again' % (srepr(c1), srepr(c2)),
-              mech=nonflat_order_mech(tgt, case, c1, c2))
+              mech=nonflat_order_mech(tgt, case, c1, c2) + unrounded_default_mech(tgt, case, c1, c2))
 
 
 def judge_flattening(J, tgt, f, kg, rng, spec, pool):
